@@ -68,7 +68,10 @@ def interrupted_run(blt, opts, k, full):
         return [], None
     bad = []
     outs = {}
-    for f in ('report', 'dump', 'json'):
+    # the renderings in an order that depends on the interruption point (each may be asked for first, and twice)
+    orders = [('report', 'dump', 'json'), ('dump', 'json', 'report'), ('json', 'dump', 'report'), ('dump', 'dump', 'json', 'report'),
+              ('json', 'report', 'dump'), ('report', 'json', 'dump', 'json'), ('dump', 'report', 'json'), ('json', 'json', 'report', 'dump')]
+    for f in orders[k % len(orders)]:
         try:
             outs[f] = getattr(E, f)(True)
         except BaseException as x:
